@@ -7,12 +7,14 @@ import (
 	"os"
 	"os/exec"
 	"path/filepath"
+	"reflect"
 	"strconv"
 	"strings"
 	"sync/atomic"
 
 	"github.com/ChrisTrenkamp/xsel"
 
+	"xv/adoc"
 	"xv/impl"
 	"xv/refxp"
 	"xv/run"
@@ -410,6 +412,59 @@ func C15(c *run.Check) {
 		})
 		c.Distinct("builtin-calls")
 	}
+	// Unmarshal: every field type x tag as *S, **S, *[]S, *[]T, *T and a few
+	// ill-shaped targets x results of every shape (empty / 1 / 2 nodes, string,
+	// number, boolean): never a panic, never (nil error and untouched) judged
+	// here - only "returns" (C19 decides the values)
+	if c.Violations() == 0 {
+		b, _ := impl.Bind(c08Doc(1))
+		var elems xsel.NodeSet
+		for _, n := range b.Doc.Nodes {
+			if n.Kind == adoc.Elem {
+				elems = append(elems, b.ToCur[n])
+			}
+		}
+		results := []xsel.Result{xsel.NodeSet{}, xsel.NodeSet{elems[0]}, xsel.NodeSet{elems[1], elems[0]}, elems, xsel.String("s"), xsel.Number(1.5), xsel.Bool(true)}
+		rnames := []string{"empty node-set", "one node", "two nodes (reverse order)", "all elements", "string", "number", "boolean"}
+		fts := c19FieldTypes()
+		tags := c19Tags
+		if c.Quick() {
+			tags = tags[:12]
+		}
+		run.ParallelW(len(fts)*len(tags), func(w, i int) {
+			if c.Violations() > 0 {
+				return
+			}
+			ft, tag := fts[i/len(tags)], tags[i%len(tags)]
+			st := reflect.StructOf([]reflect.StructField{{Name: "F", Type: ft, Tag: reflect.StructTag(`xsel:"` + tag + `"`)}, {Name: "G", Type: reflect.TypeOf(0)}})
+			mk := []func() interface{}{
+				func() interface{} { return reflect.New(st).Interface() },
+				func() interface{} {
+					p := reflect.New(st)
+					pp := reflect.New(p.Type())
+					pp.Elem().Set(p)
+					return pp.Interface()
+				},
+				func() interface{} { return reflect.New(reflect.SliceOf(st)).Interface() },
+				func() interface{} { return reflect.New(reflect.SliceOf(ft)).Interface() },
+				func() interface{} { return reflect.New(ft).Interface() },
+				func() interface{} { return reflect.New(reflect.PointerTo(st)).Interface() },  // **S with nil inner pointer
+				func() interface{} { return reflect.Zero(reflect.PointerTo(st)).Interface() }, // typed nil *S
+				func() interface{} { return reflect.New(st).Elem().Interface() },              // non-pointer S
+			}
+			for ri, res := range results {
+				for ti, m := range mk {
+					c.Evaluations.Add(1)
+					if _, pan := callUnmarshal(res, m(), c19Settings(b)); pan != "" {
+						c.Violation(c15Case{Kind: "unmarshal", Input: fmt.Sprintf("field type %v, tag %q, target shape %d, result %s", ft, tag, ti, rnames[ri]), Detail: pan},
+							fmt.Sprintf("[unmarshal] struct{F %v `xsel:%q`} (target shape %d) from %s: panic: %s", ft, tag, ti, rnames[ri], pan))
+						return
+					}
+				}
+			}
+		})
+		c.Distinct("unmarshal-sweep")
+	}
 	// nesting depth sweeps in subprocesses (a stack overflow kills the process)
 	if c.Violations() == 0 {
 		depths := []int{10, 100, 400}
@@ -443,8 +498,8 @@ func C15(c *run.Check) {
 	c.Sample(map[string]string{"kind": "xml-bytes", "input": "<a x=\"&#"})
 	c.Sample(map[string]string{"kind": "expr-tokens", "input": "u() | $n [ boom() ]"})
 	c.Sample(map[string]string{"kind": "json-bytes", "input": "{\"a\":[1e"})
-	c.Rule = "ALL strings up to a length bound over five alphabets, in worker subprocesses: expression token strings (C08 alphabet + nil variable, user functions returning (nil,nil) / an error / panicking, huge numbers) built AND executed on 2 documents under 3 binding sets; expression byte strings (incl. invalid UTF-8, NUL, and valid 2-, 4- and 9-byte characters/names); XML, JSON byte strings and HTML token strings through ReadXml/ReadJson/ReadHtml followed by 6 queries on whatever tree comes back; the well-typed C01/C08 expression universes from every node must never give an 'xpath query panic' error; nesting-depth sweeps (parentheses, predicates, steps, unions, expression nesting up to 400/2000, document depth/width up to 400/100000) in subprocesses. Oracle: the call returns, with (non-nil value, nil) or (_, non-nil error); no panic escapes; the process survives"
-	c.Assume("bounded exhaustive, not coverage-guided: crashing inputs whose shortest form is longer than the bound are out of reach; Unmarshal targets are covered by C19")
+	c.Rule = "ALL strings up to a length bound over five alphabets, in worker subprocesses: expression token strings (C08 alphabet + nil variable, user functions returning (nil,nil) / an error / panicking, huge numbers) built AND executed on 2 documents under 3 binding sets; expression byte strings (incl. invalid UTF-8, NUL, and valid 2-, 4- and 9-byte characters/names); XML, JSON byte strings and HTML token strings through ReadXml/ReadJson/ReadHtml followed by 6 queries on whatever tree comes back; the well-typed C01/C08 expression universes from every node must never give an 'xpath query panic' error; Unmarshal of 7 result shapes (empty/1/2/all nodes, string, number, boolean) into 8 target shapes (*S, **S, *[]S, *[]T, *T, **S with nil inner pointer, typed nil, non-pointer) for 40 field types x 12/30 tag expressions; nesting-depth sweeps (parentheses, predicates, steps, unions, expression nesting up to 400/2000, document depth/width up to 400/100000) in subprocesses. Oracle: the call returns, with (non-nil value, nil) or (_, non-nil error); no panic escapes; the process survives"
+	c.Assume("bounded exhaustive, not coverage-guided: crashing inputs whose shortest form is longer than the bound are out of reach; the values Unmarshal produces are decided by C19")
 }
 
 func init() {
